@@ -360,6 +360,19 @@ def check_case(case):
                 if k is not None:
                     bad(f"{name}:parallel-differs", f"processes={case['procs']} chunk={case['chunk']}: "
                         + (f"{len(rows)} rows vs {len(res[name])} serial" if k == -1 else f"row {k}: {rows[k]} vs serial {res[name][k]}"))
+        # ---- command-line tier (a quarter of the cases with reads): `cnvkit.py coverage` on the same BAM and BED =
+        # do_coverage (serial) on the same files
+        from vk import gen
+
+        if gen.pick(case, "cli", 4) == 0 and not out and reads and not case["big_bed"]:
+            from vk import cli
+
+            coverage.to_chunks = orig_chunks
+            for by_count in (False, True):
+                diff = cli.coverage_diff(bam, bed, d, by_count, case["min_mapq"], min(case["procs"], 3), tag="o%d" % by_count)
+                if diff:
+                    bad("cli:coverage", diff)
+                    break
     finally:
         coverage.to_chunks = orig_chunks
         shutil.rmtree(d, ignore_errors=True)
